@@ -114,6 +114,18 @@ func c08AcquireIsNX(r *core.Run) {
 			}
 			ok := underNilErrOf(r.P, ret.Block(), fnDMapPut)
 			if !ok {
+				// `return err` where err is put's own result: success exactly when put succeeded
+				srcs := errSources(r.P, core.ResultValue(ret, 0))
+				if len(srcs) > 0 {
+					ok = true
+					for _, c := range srcs {
+						if o := core.CalleeObj(c); o == nil || core.QualName(o) != fnDMapPut {
+							ok = false
+						}
+					}
+				}
+			}
+			if !ok {
 				// the success return after the retry loop: every path to it passes a nil put
 				ok = true
 				for _, pr := range ret.Block().Preds {
